@@ -10,7 +10,10 @@ use crate::{
     compiler::{Card, CardBody, ForEach, Function, Module},
     procedures::ExecutionErrorPayload,
     value::Value,
-    vm::{runtime::cao_lang_object::CaoLangObjectBody, Vm},
+    vm::{
+        runtime::cao_lang_object::{CaoLangObjectBody, ObjectGcGuard},
+        Vm,
+    },
 };
 
 /// Given a table and a callback that returns a bool create a new table whith the items that return
@@ -177,15 +180,26 @@ pub fn native_minmax<T, const LESS: bool>(
                     vm.stack_push(*first.1)?;
                     vm.stack_push(*first.0)?;
                     let mut max_key = vm.run_function(key_fn)?;
+                    // a key may be a new object that only this function refers to: keep it alive while
+                    // the key function runs again
+                    let mut _max_key_guard = match max_key {
+                        Value::Object(o) => Some(ObjectGcGuard::new(o)),
+                        _ => None,
+                    };
                     let mut i = 0;
 
                     for (j, (k, value)) in t.iter().enumerate().skip(1) {
                         vm.stack_push(*value)?;
                         vm.stack_push(*k)?;
                         let key = vm.run_function(key_fn)?;
+                        let key_guard = match key {
+                            Value::Object(o) => Some(ObjectGcGuard::new(o)),
+                            _ => None,
+                        };
                         if if LESS { key < max_key } else { key > max_key } {
                             i = j;
                             max_key = key;
+                            _max_key_guard = key_guard;
                         }
                     }
                     let k = t.nth_key(i);
@@ -220,10 +234,16 @@ pub fn native_sorted<T>(
                     // TODO:
                     // sort in place?
                     let mut result = Vec::with_capacity(t.len());
+                    // the keys may be new objects that only `result` refers to: keep them alive while the
+                    // key function runs again
+                    let mut key_guards = Vec::with_capacity(t.len());
                     for (k, v) in t.iter() {
                         vm.stack_push(*v)?;
                         vm.stack_push(*k)?;
                         let key = vm.run_function(key_fn)?;
+                        if let Value::Object(o) = key {
+                            key_guards.push(ObjectGcGuard::new(o));
+                        }
                         result.push((key, k, v));
                     }
                     result.sort_by(|(a, _, _), (b, _, _)| {
